@@ -1,5 +1,6 @@
 import Ecal.Drivers.Util
 import Ecal.Model.Conc
+import Ecal.Drivers.C07
 /-!
 Driver of C13. Payload (space separated `key=value`):
   `g=<goroutines> n=<programs> r=<rounds> prov=<0|1> mode=<…> seed=<n>`
@@ -10,6 +11,9 @@ interleaving, and counts the threads whose result differs from the result of
 the same thread running alone. It also lets the threads draw instance ids from
 the atomically updated counter (`idSys true`) and counts duplicates.
 Result: `<mismatches> <duplicate ids>` (theorems `parse_reentrant`, `instance_ids_distinct`: 0 0).
+Mode `lean` (every fifth case): the payload carries programs with their token lists; the Lean parser
+model (Model/Parser, the port C07 ties to parser.go) parses them and the result line is the hash of
+its C07-format result per program — what every concurrent Go parse of that program must have produced.
 -/
 namespace Ecal.Drv.C13
 open Ecal.Drv Ecal.Conc
@@ -37,8 +41,38 @@ def schedOf : Nat → Nat → Nat → List Nat
   | 0, _, _ => []
   | fuel + 1, x, g => let x := lcg x; ((x / 65536) % g) :: schedOf fuel x g
 
+def textHash (t : String) : String :=
+  let bs := t.toUTF8.toList
+  let h := bs.foldl (fun h b => (h * 131 + b.toNat) % 1000000007) 7
+  toString bs.length ++ ":" ++ toString h
+
+/-- mode lean: the parser MODEL (`Ecal.Parse.parseToks`, the port of parser.go that C07 ties to the
+    code) parses the tokens of every program; result per program in the C07 text format, hashed. -/
+def leanOne (p : String) : String :=
+  match p.splitOn ":" with
+  | [_src, toks] =>
+    let toks? := if toks = "-" then some [] else (toks.splitOn ",").mapM Ecal.Drv.C07.parseTok
+    match toks? with
+    | none => "bad-tokens"
+    | some ts =>
+      match Ecal.Parse.parseToks ts with
+      | (some t, none) => textHash ("OK " ++ Ecal.Drv.C07.treeText t)
+      | (none, some (.perr kind l c)) =>
+        textHash ("ERR " ++ Ecal.Drv.C07.kindText kind ++ " " ++ toString l ++ " " ++ toString c)
+      | (none, some .panic) => "PANIC-PREDICTED"
+      | (none, some .fuel) => "OUT-OF-FUEL"
+      | (some _, some _) => textHash "BOTH"
+      | (none, none) => textHash "NEITHER"
+  | _ => "bad-program"
+
+def runLean (fs : List String) : String :=
+  match fs.find? (·.startsWith "progs=") with
+  | some p => " ".intercalate (((p.drop 6).toString.splitOn "|").map leanOne) ++ "\tnt=1"
+  | none => "bad-payload"
+
 def runCase (payload : String) : String :=
   let fs := payload.splitOn " "
+  if fs.contains "mode=lean" then runLean fs else
   let g := field fs "g"
   let seed := field fs "seed"
   if g = 0 then "bad-payload" else
